@@ -5,6 +5,7 @@ In the model a range is the HISTORY of its construction (the list of inserts, ne
 are histories with the same `lookup`.
 -/
 import EspadaVerif.Lemmas.TextDefs
+import EspadaVerif.Lemmas.FormatFacts
 
 namespace EspadaVerif.C17
 open EspadaVerif TextDefs
@@ -16,7 +17,16 @@ built. -/
 theorem C17_canonical (wt : WText W) (r₁ r₂ : HandRange W) (h : ∀ c, r₁.lookup c = r₂.lookup c) :
     showRange wt r₁ = showRange wt r₂ ∧ rankPairs wt r₁ = rankPairs wt r₂
     ∧ (∀ o₁ o₂, orphans wt r₁ = .ok o₁ → orphans wt r₂ = .ok o₂ → ∀ c, o₁.lookup c = o₂.lookup c) := by
-  sorry
+  have e1 := FormatFacts.rpList_congr wt r₁ r₂ h
+  have e2 := FormatFacts.orphToks_congr _ _ (FormatFacts.orphList_congr wt r₁ r₂ h)
+  refine ⟨?_, ?_, ?_⟩
+  · rw [FormatFacts.showRange_eq, FormatFacts.showRange_eq, e1, e2]
+  · rw [FormatFacts.rankPairs_eq, FormatFacts.rankPairs_eq, e1]
+  · intro o₁ o₂ h1 h2 c
+    rw [FormatFacts.orphans_eq] at h1 h2
+    cases h1
+    cases h2
+    exact FormatFacts.orphList_congr wt r₁ r₂ h c
 
 /-- the token written for a maximal run `(start, length, weight)` of a row whose top rank is `first`:
 `X+` when the run starts at the top and has length ≥ 2, a single rank pair for length 1, `X-Y` otherwise -/
@@ -26,13 +36,17 @@ def runToken (first : Nat) (mk : Nat → RankPair) (run : Nat × Nat × W) : Tok
   else if n = 1 then ⟨.singleRank (mk (first + s)), w⟩
   else ⟨.doubleClosed (mk (first + s)) (first + s + n - 1), w⟩
 
+theorem runToken_eq (first : Nat) (mk : Nat → RankPair) :
+    (runToken first mk : Nat × Nat × W → Token W) = FormatFacts.runTok first mk := rfl
+
 /-- **C17 (runs).** For every row (pockets: `first = 0`; kickers under a high card `h`: `first = h + 1`) and every
 table of reported rank pairs, the formatter's state machine emits exactly one token per maximal run of
 adjacent rank pairs with equal weight, in row order. -/
 theorem C17_runs (wt : WText W) (rps : List (RankPair × W)) (first : Nat) (hf : first ≤ 12) (mk : Nat → RankPair) :
     rowTokens wt rps first 12 mk (List.range' first (13 - first))
       = .ok ((Spec.runs wt.eq ((List.range' first (13 - first)).map fun k => rpLookup rps (mk k))).map (runToken first mk)) := by
-  sorry
+  rw [runToken_eq]
+  exact FormatFacts.rowTokens_runs wt rps first hf mk
 
 /-- the runs of `Spec.runs` are disjoint, in order, and maximal: two consecutive runs either do not touch or carry
 different weights; every run is weight-constant and covers only present entries; every present entry is covered -/
@@ -44,7 +58,9 @@ theorem C17_runs_maximal (weq : W → W → Bool) (hrefl : ∀ a, weq a a = true
     ∧ List.Pairwise (fun a b => a.1 + a.2.1 ≤ b.1) rs
     ∧ (∀ k, ∀ a b, rs[k]? = some a → rs[k + 1]? = some b → a.1 + a.2.1 = b.1 →
           ∃ wb, row[b.1]? = some (some wb) ∧ weq wb a.2.2 = false) := by
-  sorry
+  intro rs
+  obtain ⟨hok, hcov⟩ := FormatFacts.runs_final weq hrefl row
+  exact ⟨hok.body, hcov, hok.sorted, hok.sep⟩
 
 /-- position of a token in the canonical order: pocket row, then per high card suited row, offsuit row, then leftovers -/
 def tokenRow (t : Token W) : Nat :=
@@ -58,10 +74,92 @@ def tokenRow (t : Token W) : Nat :=
   | .singleRank rp => rowOf rp
   | .singleCard _ => 1000
 
+theorem pairwise_of_forall {α : Type} {R : α → α → Prop} {l : List α} (h : ∀ a ∈ l, ∀ b ∈ l, R a b) :
+    l.Pairwise R := by
+  induction l with
+  | nil => exact .nil
+  | cons x tl ih =>
+    exact List.pairwise_cons.mpr ⟨fun b hb => h x (by simp) b (by simp [hb]),
+      ih (fun a ha b hb => h a (by simp [ha]) b (by simp [hb]))⟩
+
+theorem tokenRow_rowRuns (wt : WText W) (rps : List (RankPair × W)) (first : Nat) (mk : Nat → RankPair) (n : Nat)
+    (hmk : ∀ k, tokenRow (W := W) ⟨.singleRank (mk k), wt.one⟩ = n) (t : Token W)
+    (ht : t ∈ FormatFacts.rowRuns wt rps first mk) : tokenRow t = n := by
+  obtain ⟨k, e, hk | hk | hk⟩ := FormatFacts.rowRuns_kind wt rps first mk t ht
+  all_goals
+    have := hmk k
+    simp only [tokenRow] at this ⊢
+    rw [hk]
+    exact this
+
+theorem tokenRow_highToks (wt : WText W) (rps : List (RankPair × W)) (h : Nat) (t : Token W)
+    (ht : t ∈ FormatFacts.highToks wt rps h) : 1 + 2 * h ≤ tokenRow t ∧ tokenRow t ≤ 2 + 2 * h := by
+  rcases List.mem_append.mp ht with ht | ht
+  · have := tokenRow_rowRuns wt rps (h + 1) (.suited h) (1 + 2 * h) (fun k => rfl) t ht
+    omega
+  · have := tokenRow_rowRuns wt rps (h + 1) (.ofsuit h) (2 + 2 * h) (fun k => rfl) t ht
+    omega
+
+theorem pairwise_highToks (wt : WText W) (rps : List (RankPair × W)) (h : Nat) :
+    List.Pairwise (fun a b => tokenRow a ≤ tokenRow b) (FormatFacts.highToks wt rps h) := by
+  unfold FormatFacts.highToks
+  rw [List.pairwise_append]
+  refine ⟨pairwise_of_forall ?_, pairwise_of_forall ?_, ?_⟩
+  · intro a ha b hb
+    rw [tokenRow_rowRuns wt rps (h + 1) (.suited h) (1 + 2 * h) (fun k => rfl) a ha,
+      tokenRow_rowRuns wt rps (h + 1) (.suited h) (1 + 2 * h) (fun k => rfl) b hb]
+    exact Nat.le_refl _
+  · intro a ha b hb
+    rw [tokenRow_rowRuns wt rps (h + 1) (.ofsuit h) (2 + 2 * h) (fun k => rfl) a ha,
+      tokenRow_rowRuns wt rps (h + 1) (.ofsuit h) (2 + 2 * h) (fun k => rfl) b hb]
+    exact Nat.le_refl _
+  · intro a ha b hb
+    rw [tokenRow_rowRuns wt rps (h + 1) (.suited h) (1 + 2 * h) (fun k => rfl) a ha,
+      tokenRow_rowRuns wt rps (h + 1) (.ofsuit h) (2 + 2 * h) (fun k => rfl) b hb]
+    omega
+
+theorem tokenRow_orphToks (o : HandRange W) (t : Token W) (ht : t ∈ FormatFacts.orphToks o) : tokenRow t = 1000 := by
+  obtain ⟨c, p, rfl, _⟩ := FormatFacts.orphToks_kind o t ht
+  rfl
+
 /-- **C17 (order).** Pocket pairs first, then for each high card from ace down its suited and then its offsuit
 kickers, then the leftover single combos. -/
 theorem C17_order (wt : WText W) (r : HandRange W) (toks : List (Token W)) (h : showRangeTokens wt r = .ok toks) :
     List.Pairwise (fun a b => tokenRow a ≤ tokenRow b) toks := by
-  sorry
+  rw [FormatFacts.showRangeTokens_eq] at h
+  cases h
+  have hB : ∀ t ∈ (List.range' 0 12).flatMap (FormatFacts.highToks wt (FormatFacts.rpList wt r)),
+      1 ≤ tokenRow t ∧ tokenRow t ≤ 24 := by
+    intro t ht
+    obtain ⟨hh, hmem, ht⟩ := List.mem_flatMap.mp ht
+    have h1 := List.mem_range'_1.mp hmem
+    have h2 := tokenRow_highToks wt _ hh t ht
+    omega
+  have hA : ∀ t ∈ FormatFacts.rowRuns wt (FormatFacts.rpList wt r) 0 .pocket, tokenRow t = 0 :=
+    fun t ht => tokenRow_rowRuns wt _ 0 .pocket 0 (fun k => rfl) t ht
+  rw [List.pairwise_append, List.pairwise_append]
+  refine ⟨⟨pairwise_of_forall ?_, ?_, ?_⟩, pairwise_of_forall ?_, ?_⟩
+  · intro a ha b hb
+    rw [hA a ha, hA b hb]
+    exact Nat.le_refl _
+  · rw [List.pairwise_flatMap]
+    refine ⟨fun hh _ => pairwise_highToks wt _ hh, ?_⟩
+    refine List.Pairwise.imp ?_ (List.pairwise_lt_range' (s := 0) (n := 12))
+    intro h1 h2 hlt x hx y hy
+    have := tokenRow_highToks wt _ h1 x hx
+    have := tokenRow_highToks wt _ h2 y hy
+    omega
+  · intro a ha b hb
+    rw [hA a ha]
+    exact Nat.zero_le _
+  · intro a ha b hb
+    rw [tokenRow_orphToks _ a ha, tokenRow_orphToks _ b hb]
+    exact Nat.le_refl _
+  · intro a ha b hb
+    rw [tokenRow_orphToks _ b hb]
+    rcases List.mem_append.mp ha with ha | ha
+    · rw [hA a ha]; omega
+    · have := hB a ha
+      omega
 
 end EspadaVerif.C17
